@@ -471,11 +471,17 @@ fn explore_jobs(tier: Tier) -> Vec<Job> {
     let cfgs: Vec<(u32, u32, u32)> = if thorough { vec![(2, 2, 2), (3, 2, 1), (2, 3, 2), (5, 2, 2), (2, 2, 3), (1, 3, 2), (1, 2, 2), (1, 4, 3), (2, 3, 3)] } else { vec![(2, 2, 2), (3, 2, 1), (2, 3, 2), (5, 2, 2)] };
     let cap = if thorough { 1500 } else { 200 };
     for (batch, fd, threads) in cfgs {
-        let modes: Vec<&str> = if thorough { vec!["sum", "max", "min"] } else if (batch, fd, threads) == (2, 2, 2) { vec!["sum", "min"] } else { vec!["min", "max"] };
+        // configurations whose state space is not exhausted within the cap
+        // (measured: > 260 000 states after 1500 s) get two variants only
+        let huge = matches!((batch, fd, threads), (2, 2, 3) | (1, 2, 2) | (1, 4, 3));
+        let modes: Vec<&str> = if thorough && huge { vec!["sum"] } else if thorough { vec!["sum", "max", "min"] } else if (batch, fd, threads) == (2, 2, 2) { vec!["sum", "min"] } else { vec!["min", "max"] };
         for mode in modes {
             for (ii, inp) in map_inputs.iter().enumerate() {
                 // quick: the repeated-key input with sum, the distinct-key input with min
                 if !thorough && (batch, fd, threads) == (2, 2, 2) && ((ii == 0) != (mode == "sum")) {
+                    continue;
+                }
+                if thorough && huge && ii == 1 {
                     continue;
                 }
                 v.push(Job { set: false, mode: mode.into(), files: vec![inp.clone()], batch, fd, threads, explore: true, cap_s: cap });
